@@ -193,6 +193,11 @@ def replay_scope(run, hvsrpy, by_range, freq, scale, ascale, rng, stride, cfg):
             # orders 0/1 pass an explicit empty find_peaks_kwargs: only then can the
             # "same arguments -> keep the cached peaks" shortcut of the containers fire
             kw = dict(find_peaks_kwargs={}) if oi in (0, 1) else {}
+            if oi == 2 and rng.random() < 0.3:
+                # a call with its own scipy filters (a prominence nothing reaches) BEFORE the plain call: find_peaks_kwargs=None means
+                # "scipy's defaults", not "whatever the previous call used"
+                trad.update_peaks_bounded(search_range_in_hz=r, find_peaks_kwargs=dict(prominence=1e9))
+                azi.update_peaks_bounded(search_range_in_hz=r, find_peaks_kwargs=dict(prominence=1e9))
             trad.update_peaks_bounded(search_range_in_hz=r, **kw)
             azi.update_peaks_bounded(search_range_in_hz=r, **kw)
             check_container(run, f"HvsrTraditional[order{oi}]", trad, cs, freq, amp, scale, ascale, 0)
